@@ -72,3 +72,210 @@ Proof.
   cbv zeta. split; [|vm_compute; auto].
   repeat constructor; vm_compute; intuition discriminate.
 Qed.
+
+(* ===================== the real two-level trie (vhosttrie.go) ===================== *)
+
+(* get after insert: insertPath stores (site, originalPath) exactly at the key and nowhere else *)
+Theorem C01_trie_get_insert : forall k o s t,
+  get k (insert_path k o s t) = Some (s, o) /\
+  forall k', k <> k' -> get k' (insert_path k o s t) = get k' t.
+Proof. intros k o s t. split; [apply get_insert_same|intros k'; apply get_insert_other]. Qed.
+Print Assumptions C01_trie_get_insert.
+
+(* a Go map holds each key once; the edge update keeps it so *)
+Theorem C01_trie_edge_update_keeps_keys_unique : forall k f es,
+  NoDup (map fst es) -> NoDup (map fst (edge_upd k f es)).
+Proof. exact edge_upd_keys_nodup. Qed.
+Print Assumptions C01_trie_edge_update_keeps_keys_unique.
+Example C01_trie_edge_update_nonvacuous :
+  NoDup (map fst (t_edges (tbuild [(bs "a.com/x"%string, 1); (bs "b.com"%string, 2)]))).
+Proof. vm_compute. repeat constructor; cbn; intuition discriminate. Qed.
+
+(* matchPath on ANY trie node (built or not): the value stored at the longest non-empty prefix
+   of the path that carries a site *)
+Theorem C01_trie_match_path_longest : forall b path v,
+  tmatch_path path b None = Some v ->
+  exists q, q <> [] /\ has_prefix path q = true /\ get q b = Some v /\
+    forall q', q' <> [] -> has_prefix path q' = true -> get q' b <> None ->
+               (length q' <= length q)%nat.
+Proof. exact trie_match_path_longest. Qed.
+Print Assumptions C01_trie_match_path_longest.
+
+Theorem C01_trie_match_path_none : forall b path,
+  tmatch_path path b None = None ->
+  forall q', q' <> [] -> has_prefix path q' = true -> get q' b = None.
+Proof. exact trie_match_path_none. Qed.
+Print Assumptions C01_trie_match_path_none.
+
+(* REFINEMENT: the trie built by inserting ANY list of sites is extensionally the finite map:
+   same set of host keys, and exact lookup returns the map's site together with the key's own
+   path (so node.path is always the path spelled by the edges). *)
+Theorem C01_trie_refines_map : forall sites,
+  (forall h, thost_present (tbuild sites) h = host_present (build sites) h) /\
+  (forall h p, tlookup (tbuild sites) h p = option_map (fun s => (s, p)) (lookup (build sites) h p)).
+Proof. exact trie_refines_map. Qed.
+Print Assumptions C01_trie_refines_map.
+
+(* ... and Match/serveHTTP over the trie compute exactly what the finite-map model computes, so
+   every theorem above about [serve (build sites)] holds of the real data structure. *)
+Theorem C01_trie_serve_refines : forall sites xf hh up proto,
+  tserve (tbuild sites) xf hh up proto = serve (build sites) xf hh up proto.
+Proof. exact tserve_build. Qed.
+Print Assumptions C01_trie_serve_refines.
+
+(* ===================== end-to-end specification ===================== *)
+
+(* For ALL site lists (any bytes, duplicates, any order) and ALL requests (any Host bytes —
+   case, port, brackets —, any path bytes, any protocol version) the server routes exactly as
+   the declarative statement [spec] of C01_Model says. *)
+Theorem C01_route_spec : forall sites xf hh up proto,
+  tserve (tbuild sites) xf hh up proto = spec sites xf hh up proto.
+Proof. exact route_spec. Qed.
+Print Assumptions C01_route_spec.
+
+(* the governing host pattern: most specific declared pattern (exact name first, then fewer
+   leading "*" labels) of the first of request host, fallback hosts that has one *)
+Theorem C01_governing_pattern_most_specific : forall sites fbs host pat,
+  governing_pattern sites fbs host = Some pat ->
+  host_declared sites pat = true /\
+  exists before h after pre post,
+    host :: fbs = before ++ h :: after /\ patterns h = pre ++ pat :: post /\
+    (forall p, In p pre -> host_declared sites p = false) /\
+    (forall h', In h' before -> forall p, In p (patterns h') -> host_declared sites p = false).
+Proof. exact governing_pattern_most_specific. Qed.
+Print Assumptions C01_governing_pattern_most_specific.
+Example C01_governing_pattern_nonvacuous :
+  governing_pattern [(bs "*.*.com/x"%string, 1); (bs "*.a.com"%string, 2); (bs ":80"%string, 3)] []
+                    (bs "b.a.com"%string) = Some (bs "*.a.com"%string).
+Proof. vm_compute. reflexivity. Qed.
+
+(* a hit, read relationally over the declared list: the site is declared at (governing pattern,
+   q), q is the LONGEST declared byte-wise prefix of the request path among that pattern's sites
+   (no other host's sites are considered), and exactly that one site's handlers run *)
+Theorem C01_route_site_characterised : forall sites xf hh up proto s q,
+  tserve (tbuild sites) xf hh up proto = Site s q ->
+  let key := strip_port hh ++ up in
+  exists pat,
+    governing_pattern sites (default_fallbacks ++ xf) (addr_host key) = Some pat /\
+    owner sites pat q = Some s /\ q <> [] /\ has_prefix (addr_path key) q = true /\
+    (exists a, In (a, s) sites /\ addr_host a = pat /\ addr_path a = q) /\
+    (forall a' s', In (a', s') sites -> addr_host a' = pat ->
+                   has_prefix (addr_path key) (addr_path a') = true ->
+                   (length (addr_path a') <= length q)%nat) /\
+    handlers_run (tserve (tbuild sites) xf hh up proto) = [s].
+Proof. exact route_site_characterised. Qed.
+Print Assumptions C01_route_site_characterised.
+Example C01_route_site_nonvacuous :
+  tserve (tbuild [(bs "a.com/caf"%string, 1); (bs "a.com/"%string, 2); (bs "*.com/caf"%string ++ [195;169], 3)])
+         [] (bs "A.com:8080"%string) (bs "/caf"%string ++ [195;169;47]) 2 = Site 1 (bs "/caf"%string).
+Proof. vm_compute. reflexivity. Qed.
+
+(* a request matches no site (no declared pattern for its host or any fallback host, or the
+   governing pattern has no site whose path is a prefix — other hosts are NOT tried)
+   <=> the answer is 404 (421 on HTTP/2), and then no site's handlers run *)
+Theorem C01_no_match_runs_no_handler : forall sites xf hh up proto,
+  no_site_matches sites xf hh up <->
+  (tserve (tbuild sites) xf hh up proto = NotFound (if 2 <=? proto then 421 else 404) /\
+   handlers_run (tserve (tbuild sites) xf hh up proto) = []).
+Proof. exact no_match_runs_no_handler. Qed.
+Print Assumptions C01_no_match_runs_no_handler.
+Example C01_no_match_nonvacuous :
+  no_site_matches [(bs "a.com/x"%string, 1); (bs ":80/y"%string, 2)] [] (bs "a.com"%string) (bs "/y"%string) /\
+  tserve (tbuild [(bs "a.com/x"%string, 1); (bs ":80/y"%string, 2)]) [] (bs "a.com"%string) (bs "/y"%string) 2
+    = NotFound 421.
+Proof.
+  split; [|vm_compute; reflexivity].
+  apply (proj2 (no_match_runs_no_handler _ _ _ _ 1)). vm_compute. auto.
+Qed.
+
+Theorem C01_handlers_run_at_most_one : forall sites xf hh up proto,
+  (length (handlers_run (tserve (tbuild sites) xf hh up proto)) <= 1)%nat.
+Proof. exact handlers_run_at_most_one. Qed.
+Print Assumptions C01_handlers_run_at_most_one.
+
+(* order independence restated on the specification and on the real trie: unique normalised
+   addresses, any permutation, any request *)
+Theorem C01_route_order_independent_spec : forall sites sites' xf hh up proto,
+  NoDup (map addr_key sites) -> Permutation sites sites' ->
+  spec sites xf hh up proto = spec sites' xf hh up proto /\
+  tserve (tbuild sites) xf hh up proto = tserve (tbuild sites') xf hh up proto.
+Proof. exact spec_order_independent. Qed.
+Print Assumptions C01_route_order_independent_spec.
+Example C01_route_order_independent_spec_nonvacuous :
+  NoDup (map addr_key [(bs "a.com/x"%string, 1); (bs "*.com"%string, 2); (bs "A.com:80"%string, 3); (bs "[::1]:80"%string, 4)]).
+Proof. repeat constructor; vm_compute; intuition discriminate. Qed.
+
+(* without the uniqueness hypothesis the claim is false: the later of two sites declared at the
+   same normalised address wins *)
+Theorem C01_route_order_independent_dup_refuted :
+  exists sites sites' xf hh up proto,
+    Permutation sites sites' /\
+    tserve (tbuild sites) xf hh up proto <> tserve (tbuild sites') xf hh up proto.
+Proof. exact order_dependent_with_duplicates. Qed.
+Print Assumptions C01_route_order_independent_dup_refuted.
+
+(* host matching ignores letter case and port: for every name without ':' '[' ']' '/', every
+   re-casing of it, with or without any port text, the outcome is the same *)
+Theorem C01_host_case_port_irrelevant : forall sites xf h h' port port' up proto,
+  plain h = true -> plain h' = true ->
+  match port with Some p => plain p = true | None => True end ->
+  match port' with Some p => plain p = true | None => True end ->
+  to_lower h = to_lower h' ->
+  tserve (tbuild sites) xf (with_port h port) up proto =
+  tserve (tbuild sites) xf (with_port h' port') up proto.
+Proof. exact host_case_port_irrelevant. Qed.
+Print Assumptions C01_host_case_port_irrelevant.
+Example C01_host_case_port_nonvacuous :
+  plain (bs "B.a.Com"%string) = true /\ plain (bs "8080"%string) = true /\
+  to_lower (bs "B.a.Com"%string) = to_lower (bs "b.A.com"%string) /\
+  tserve (tbuild [(bs "*.a.com"%string, 7)]) [] (with_port (bs "B.a.Com"%string) (Some (bs "8080"%string))) (bs "/"%string) 1
+    = Site 7 (bs "/"%string).
+Proof. vm_compute. auto. Qed.
+
+(* the refinement is an invariant of Insert from ANY refining state, and any refining pair
+   routes identically (not only tries built from the empty one) *)
+Theorem C01_trie_insert_preserves_refinement : forall root m key s,
+  refines root m -> refines (tinsert root key s) (insert m key s).
+Proof. exact refines_insert. Qed.
+Print Assumptions C01_trie_insert_preserves_refinement.
+Theorem C01_trie_serve_refines_any : forall root m xf hh up proto,
+  refines root m -> tserve root xf hh up proto = serve m xf hh up proto.
+Proof. exact tserve_refines. Qed.
+Print Assumptions C01_trie_serve_refines_any.
+Example C01_trie_refines_nonvacuous :
+  refines (tbuild [(bs "a.com/x"%string, 1); (bs "*.com"%string, 2)]) (build [(bs "a.com/x"%string, 1); (bs "*.com"%string, 2)]).
+Proof. apply trie_refines_map. Qed.
+
+(* bracketed (IPv6) literals: brackets, letter case and port are ignored as well — for every text
+   between the brackets that is not itself of the form host:port (an IPv6 address has at least
+   two colons), and every ordinary request path (empty or starting with "/") *)
+Theorem C01_host_bracket_port_irrelevant_partial : forall sites xf a a' port port' up proto,
+  no_byte LBR a = true -> no_byte RBR a = true -> no_byte SLASH a = true ->
+  no_byte LBR a' = true -> no_byte RBR a' = true -> no_byte SLASH a' = true ->
+  split_host_port (to_lower a) = None ->
+  match port with Some p => plain p = true | None => True end ->
+  match port' with Some p => plain p = true | None => True end ->
+  to_lower a = to_lower a' -> upto_slash up = [] ->
+  tserve (tbuild sites) xf (bracketed a port) up proto =
+  tserve (tbuild sites) xf (bracketed a' port') up proto.
+Proof. exact host_bracket_port_irrelevant. Qed.
+Print Assumptions C01_host_bracket_port_irrelevant_partial.
+Example C01_host_bracket_port_nonvacuous :
+  let a := bs "2001:DB8::1"%string in
+  no_byte LBR a = true /\ no_byte RBR a = true /\ no_byte SLASH a = true /\
+  split_host_port (to_lower a) = None /\ upto_slash (bs "/x"%string) = [] /\
+  tserve (tbuild [(bs "[2001:db8::1]:2015/x"%string, 5)]) [] (bracketed a (Some (bs "80"%string))) (bs "/x"%string) 1
+    = Site 5 (bs "/x"%string) /\
+  tserve (tbuild [(bs "[2001:db8::1]:2015/x"%string, 5)]) [] (bracketed a None) (bs "/x"%string) 1
+    = Site 5 (bs "/x"%string).
+Proof. vm_compute. repeat split; reflexivity. Qed.
+
+(* without that hypothesis the claim is false: "[a.com:1]:2" loses its brackets with the port and
+   is then read as host:port a second time *)
+Theorem C01_host_bracket_port_irrelevant_refuted :
+  exists sites xf a port up proto,
+    no_byte LBR a = true /\ no_byte RBR a = true /\ no_byte SLASH a = true /\ plain port = true /\
+    tserve (tbuild sites) xf (bracketed a (Some port)) up proto <>
+    tserve (tbuild sites) xf (bracketed a None) up proto.
+Proof. exact host_bracket_one_colon_differs. Qed.
+Print Assumptions C01_host_bracket_port_irrelevant_refuted.
